@@ -68,10 +68,10 @@ contract(
                             " for i in range(0, len(parent_elements)))",
     },
     ensures={
-        "Q1-ranges-wellformed [C18,C03]": "all(reps[j][0] <= reps[j][1] for j in range(0, len(reps)))",
+        "Q1-ranges-wellformed [C18,C03,C12,C02]": "all(reps[j][0] <= reps[j][1] for j in range(0, len(reps)))",
         "Q1-ranges-ordered [C18,C03,C09]": "all(reps[j][1] <= reps[j + 1][0] for j in range(0, len(reps) - 1))",
         "Q2-inside-braces [C03,C10]": "all(brace_tokens[0].end <= reps[j][0] and reps[j][1] <= brace_tokens[1].start for j in range(0, len(reps)))",
-        "Q2-kept-elements-untouched [C03,C10,C11]": "all(all(implies(parent_elements[i] is not None,"
+        "Q2-kept-elements-untouched [C03,C10,C11,C12,C02]": "all(all(implies(parent_elements[i] is not None,"
             " reps[j][1] <= parent_elements[i][0].start or parent_elements[i][1].end <= reps[j][0])"
             " for i in range(0, len(parent_elements))) for j in range(0, len(reps)))",
     },
